@@ -79,7 +79,7 @@ def programs(  # noqa: PLR0913
     *,
     max_stmts=6,
     depth=2,
-    features=("step", "wait", "child", "parallel", "map", "callback", "wfcb", "invoke", "wfcond", "try"),
+    features=("step", "wait", "child", "parallel", "map", "callback", "wfcb", "invoke", "wfcond", "try", "sleep"),
     allow_fail=True,
     sems=("least", "most"),
     early_completion=False,
@@ -100,6 +100,8 @@ def programs(  # noqa: PLR0913
         leafs.append(wfconds(fail=wfcond_fail))
     if "wfcb" in features:
         leafs.append(st.just({"op": "wfcb"}))
+    if "sleep" in features:
+        leafs.append(st.builds(lambda x: {"op": "sleep", "secs": x}, st.sampled_from([0.05, 0.15, 0.15, 0.3])))
     if logs:
         leafs.append(st.builds(lambda t: {"op": "log", "tag": t}, st.integers(0, 10**6).map(lambda n: f"L{n}")))
     leaf = st.one_of(*leafs)
